@@ -84,6 +84,7 @@ class VC:
         self._seq = 0
         self.facts = []  # solver facts of the current path (pyvc.symcp.SolveFact)
         self.hull_facts = []  # qhull membership facts of the current path (pyvc.symsci.HullFact)
+        self.qp_facts = []
         self.hints = {}
         self._failures = 0
         self._cand_n = 0
@@ -637,6 +638,7 @@ class VC:
         def body():
             self.facts = []
             self.hull_facts = []
+            self.qp_facts = []
             self.hints = {}
             try:
                 return fn(self, self.cfg)
